@@ -45,5 +45,10 @@ def run(ck):
                       "facts": {"base": p["base"], "types": sorted(set(l["t"] for l in p["layers"])),
                                 "block": any(l.get("block") for l in p["layers"])}})
     ck.run_and_validate(tasks, TRACE)
+    if not quick:
+        # the repository's own test suite (real threads, real time) recorded through class-level wrappers and validated
+        # by TLC against spec/ApiObs.tla (order-only clauses)
+        from .. import suitecheck
+        suitecheck.run(ck, ("C11_",))
     ck.assumptions += ["taps between all layers observe the propagated shutdown calls and their arguments",
                        "worker threads are identified by their role-specific thread names"]
